@@ -74,6 +74,13 @@ Proof.
   apply waits_bind; [apply waits_of_quiet, quiet_upd_tls|]. intros _. apply waits_of_quiet, quiet_ret.
 Qed.
 
+Lemma waits_set_timeout k T : waits_only (tls_set_timeout k T).
+Proof.
+  unfold tls_set_timeout. apply waits_bind; [apply waits_of_quiet, quiet_upd_tls|]. intros _.
+  destruct (0 <? T); [|apply waits_of_quiet, quiet_ret].
+  apply waits_bind; [apply waits_sys_now|]. intros now. apply waits_of_quiet, quiet_upd_tls.
+Qed.
+
 Lemma waits_throw {A} e : waits_only (throw (X:=ext) (A:=A) e).
 Proof. intros s r s' H. inversion H. exists []. split; [apply extends_refl|constructor]. Qed.
 Lemma waits_stuck {A} u : waits_only (stuck (X:=ext) (A:=A) u).
